@@ -157,6 +157,7 @@ type ua struct {
 	sut  *vkit.SUT
 	host string
 	fwd  []string
+	via  string // how authorization requests travel: "" / get = GET with a query, post = POST with a form body
 }
 
 func (a *ua) do(method, target string, form url.Values, hdr http.Header) *vkit.Resp {
@@ -203,6 +204,7 @@ func (a *ua) token(form url.Values, c vkit.Cred) *vkit.Resp {
 type flow struct {
 	auth, cb *vkit.Resp
 	reqID    string
+	location string // where the callback sent the user agent
 	params   url.Values
 }
 
@@ -216,10 +218,17 @@ func (f *flow) describe() string {
 	return "callback: " + f.cb.Describe()
 }
 
-// authFlow: authorize -> login (the harness plays the login UI) -> callback.
-func (a *ua) authFlow(q url.Values, user string) *flow {
+// authFlow: authorize -> login (the harness plays the login UI) -> callback; the authorization request travels
+// the way the case says (OIDC Core 3.1.2.1: GET with a query string or POST with a form body).
+func (a *ua) authFlow(q url.Values, user string) *flow { return a.authFlowVia(a.via, q, user) }
+
+func (a *ua) authFlowVia(via string, q url.Values, user string) *flow {
 	f := &flow{params: url.Values{}}
-	f.auth = a.get(a.sut.Paths["authorization"], q)
+	if via == "post" {
+		f.auth = a.post(a.sut.Paths["authorization"], q, vkit.Cred{Kind: "none"})
+	} else {
+		f.auth = a.get(a.sut.Paths["authorization"], q)
+	}
 	id, ok := vkit.LoginRequestID(f.auth)
 	if !ok {
 		return f
@@ -228,7 +237,8 @@ func (a *ua) authFlow(q url.Values, user string) *flow {
 	a.sut.Store.Login(id, user)
 	f.cb = a.get(a.sut.Paths["authorization"]+"/callback", url.Values{"id": {id}})
 	if f.cb.IsRedirect() {
-		f.params = vkit.DeliveredParams(f.cb.Location())
+		f.location = f.cb.Location()
+		f.params = vkit.DeliveredParams(f.location)
 	}
 	return f
 }
